@@ -1235,6 +1235,12 @@ def accepted_pool(rng, n, names="plain", usize=False, attrs=False, derive=None, 
 
 ATTRS_BALANCED = ["derive(Debug)", "derive(Clone, Debug)", "doc = \"é\"", "a(b[c{d}e]f)g", "cfg(all(x, y))", "€", "😀(é)", "x", "[[]]", "{()}[]",
                   "doc = \"日本語 ß Ω\"", "allow(dead_code)", " spaced ( inner ) ", "a=b,c", "doc = \"// not a comment\"", "d(\"$x #[y]\")"]
+# every character that is not a line feed or a bracket may stand inside an attribute: control characters (a bare
+# carriage return, tab, NUL, ESC, DEL), the other line and paragraph separators, format characters, combining
+# marks, and the characters that mean something elsewhere in a .kiki file
+ATTRS_BALANCED += [f'doc = "a{c}b"' for c in ["\r", "\t", "\x0b", "\x0c", "\x00", "\x01", "\x1b", "\x7f", "\u0085", "\u00a0", "\u2028", "\u2029",
+                                               "\u200b", "\ufeff", "\u0301", "\\", "'", "#", "$", "/", "//", "/*", ":", "::", "<", ">", ",", "_", "`", "\r\r"]]
+ATTRS_BALANCED += ["\r", "x\ry(\r)", "\t(\x00)"]
 
 
 # =========================================================================================== C06
